@@ -947,7 +947,7 @@ var nomerge = map[string]interface{}{"scorchMergePlanOptions": bx.NoMergePlan}
 // every step a reader is opened — it must show one whole-batch state S_q with acknowledged <= q <=
 // submitted — and KEPT; at the end every kept reader must still show exactly its state.
 func bodyGatedFamily(conf map[string]interface{}, unsafe bool, words []string) func(c *drv.Ctx) {
-	menu := fgate.Menu()
+	menu := fgate.MenuPairs()
 	return func(c *drv.Ctx) {
 		word := words[vrt.Choose(len(words), "workload")]
 		spec := menu[vrt.Choose(len(menu), "gate")]
@@ -1028,7 +1028,7 @@ func bodyGatedFamily(conf map[string]interface{}, unsafe bool, words []string) f
 				view(fmt.Sprintf("after-gate-opened-%d", j))
 			}
 		}
-		parked := g.Was
+		parked := g.Was()
 		g.Open()
 		wg.Wait()
 		vrt.WaitIdle()
@@ -1039,8 +1039,11 @@ func bodyGatedFamily(conf map[string]interface{}, unsafe bool, words []string) f
 			}
 			h.r.Close()
 		}
-		if parked {
-			c.Count("executions_in_which_the_gate_parked_a_background_thread", 1)
+		if parked > 0 {
+			c.Count("executions_in_which_a_gate_parked_a_background_thread", 1)
+		}
+		if parked > 1 {
+			c.Count("executions_in_which_persister_and_merger_were_both_parked", 1)
 		}
 		c.Observe(fmt.Sprintf("wl=%s gate=%s parked=%v", word, spec.Label, parked))
 		c.Count("family_words_x_gates_run", 1)
